@@ -36,6 +36,7 @@ type Vector struct {
 	Kinds  []string          `json:"kinds"`
 	Detail string            `json:"detail,omitempty"`
 	Extra  map[string]string `json:"extra,omitempty"`
+	Known  []string          `json:"known,omitempty"`
 }
 
 // AssertRec is the outcome of one assertion instance on one path.
@@ -355,6 +356,11 @@ func (e *Exec) vector(extra string, kind, label string) (sym.Result, *Vector) {
 
 func (e *Exec) mkVector(m map[string]uint64, kind, label string) *Vector {
 	v := &Vector{Entry: e.entryName, Pkg: e.entryPkg, Params: e.M.Params, Label: label, Kind: kind}
+	for k, open := range e.M.Known {
+		if open {
+			v.Known = append(v.Known, k)
+		}
+	}
 	for _, n := range e.nondets {
 		v.Values = append(v.Values, m[n.Name])
 		v.Kinds = append(v.Kinds, n.Kind)
